@@ -81,7 +81,7 @@ Cyc(i, acc) ==
                    \o (IF dead THEN << <<"Die", i - 1, pc>> >> ELSE << >>)
            acc2 == [S |-> S2, pops |-> Append(acc.pops, <<i - 1, pc>>), ev |-> acc.ev \o tev,
                     tasks |-> Append(acc.tasks, [w |-> i - 1, pc |-> pc, ev |-> r.ev, dead |-> dead, push |-> r.push,
-                                                  op |-> S.core[pc].op, wab |-> r.wab]),
+                                                  op |-> S.core[pc].op, wab |-> r.wab, reads |-> r.reads]),
                     early |-> FALSE]
        IN IF dead /\ N(S) > 1 /\ S2.living = 1 THEN [acc2 EXCEPT !.early = TRUE]
           ELSE Cyc(i + 1, acc2)
